@@ -688,7 +688,7 @@ static void recTL(int thorough)
 		/* quick: the full op set on a cross (all tags x 6 lengths, 3 tags x all lengths), TL/Dec on everything */
 		int full = thorough || j < 4 || j == 8 || j == 22 || i == 0 || i == 5 || i == 12;
 		long vl[4]; int nv = 0; const char* vn[4];
-		if (l->val > 300 && i != 0 && !(thorough && i == 12)) continue;      /* large bodies only with one (two) tag forms */
+		if (l->val > 300 && !(thorough && (i == 0 || i == 12))) continue;    /* large bodies: thorough, two tag forms (quick has them in the OCT, derEnc and APDU parts) */
 		if (l->val > 300) full = 0;
 		if (t->bad) { vl[0] = l->val >= 0 && l->val <= 300 ? l->val : 2; vn[0] = 0; nv = 1; }
 		else if (l->bad == 1 || l->bad == 3) { vl[0] = l->bad == 3 ? 0 : 2; vn[0] = 0; nv = 1; }
@@ -1081,7 +1081,7 @@ static void doParamsEnc(const char* name)
 	CASE_END
 }
 /* container mutants: cut at every offset, change every octet three ways, append, splice in the optional field */
-static void mutateAll(const octet* enc, size_t n, void (*f)(const octet*, size_t), const char* kind, const char* inst, int thorough)
+static void mutateAll(const octet* enc, size_t n, void (*f)(const octet*, size_t), const char* kind, const char* inst, int thorough, int reduced)
 {
 	static octet m[4096]; size_t i; int k;
 	if (n + 8 > sizeof m) return;
@@ -1091,6 +1091,7 @@ static void mutateAll(const octet* enc, size_t n, void (*f)(const octet*, size_t
 	{
 		static const char* kn[] = { "octet+1", "octet-1", "octet^80", "octet=seeded" };
 		if (k == 3 && !thorough && i > 40) continue;
+		if (reduced && k != 2) continue;            /* quick tier, further instances: truncations and octet^80 only */
 		memcpy(m, enc, n);
 		m[i] = k == 0 ? (octet)(m[i] + 1) : k == 1 ? (octet)(m[i] - 1) : k == 2 ? (octet)(m[i] ^ 0x80) : g_data[9000 + i];
 		if (m[i] == enc[i]) continue;
@@ -1108,7 +1109,7 @@ static void recParams(int thorough)
 		char what[32]; snprintf(what, sizeof what, "l%d", 128 + 64 * i);
 		setCls("params-std", what, 0);
 		doParamsEnc(names[i]); n = g_last_n; memcpy(enc, g_last, n);
-		mutateAll(enc, n, doParamsDec, "params", what, thorough);
+		mutateAll(enc, n, doParamsDec, "params", what, thorough, !thorough && i > 0);
 		/* optional cofactor: 02 01 c appended inside the outer SEQUENCE (its length grows by 3) */
 		for (c = 0; c < 4; ++c)
 		{
@@ -1160,7 +1161,7 @@ static void recCvc(int thorough)
 		code = btokCVCWrap(cert, &n, c, priv, pl);
 		if (code != ERR_OK) { fprintf(stderr, "driver: btokCVCWrap failed %u\n", (unsigned)code); _exit(6); }
 		snprintf(what, sizeof what, "%d", i);
-		mutateAll(cert, n, fCvc, "cvc", what, thorough);
+		mutateAll(cert, n, fCvc, "cvc", what, thorough, !thorough && i != 2);
 	}
 }
 
